@@ -6,3 +6,5 @@ import CC.Thm.C04
 #print axioms CC.Thm.C04.counter_exact
 #print axioms CC.Thm.C04.increase_count_exact
 #print axioms CC.Thm.C04.streaming_conforms
+#print axioms CC.Thm.C04.source_kernels_match
+#print axioms CC.Thm.C04.source_code_match
